@@ -4,13 +4,13 @@ package main
 // their concretisation into real go-ucanto objects through the public API.
 
 import (
-	pdm "github.com/storacha/go-ucanto/ucan/datamodel/payload"
-	"github.com/storacha/go-ucanto/ucan/formatter"
 	"crypto/ed25519"
 	stdsha "crypto/sha256"
 	_ "embed"
 	"encoding/json"
 	"fmt"
+	pdm "github.com/storacha/go-ucanto/ucan/datamodel/payload"
+	"github.com/storacha/go-ucanto/ucan/formatter"
 	"sort"
 	"strings"
 	"sync"
